@@ -66,6 +66,22 @@ theorem stable_suggestions_testing_here_stable_elsewhere (repo : Repo) (p : Pkg)
 
 example : suggested exRepo (exPkg "test/mixed" "3" ["~alpha", "~amd64", "~hppa"]) true = ["amd64".toList, "hppa".toList] := by decide
 
+/-- **an arch that is not testing on the version is never a stabilization suggestion** — whatever else the version says
+about it (`-arch`: marked broken, `arch`: already stable, `-*`, or nothing at all) and whatever the other versions carry. -/
+theorem not_testing_here_never_stabilization_suggestion (repo : Repo) (p : Pkg)
+    (hwp : WfKeywords p) (hwr : ∀ q ∈ repo.pkgs, WfKeywords q) (k : Str) (hk : ¬ testingOn k p) :
+    k ∉ suggested repo p true :=
+  fun h => hk ((suggested_stable_iff repo p hwp hwr k).1 h).2.2.1
+
+/-- a release marked broken on `hppa` (`-hppa`) next to a version stable there: `hppa` is not suggested; same for a
+binary-style `-*` package -/
+example : suggested ⟨["alpha", "amd64", "hppa"].map String.toList,
+    [exPkg "test/broken" "1" ["alpha", "amd64", "hppa"], exPkg "test/broken" "2" ["~alpha", "~amd64", "-hppa"]]⟩
+    (exPkg "test/broken" "2" ["~alpha", "~amd64", "-hppa"]) true = ["alpha".toList, "amd64".toList] := by decide
+example : suggested ⟨["alpha", "amd64", "hppa"].map String.toList,
+    [exPkg "test/binary" "1" ["-*", "amd64", "hppa"], exPkg "test/binary" "2" ["-*", "~amd64", "-hppa"]]⟩
+    (exPkg "test/binary" "2" ["-*", "~amd64", "-hppa"]) true = ["amd64".toList] := by decide
+
 /-- **keywording suggestions are exactly the arches some version of the package has and this one does not mention** -/
 theorem keywording_suggestions_present_elsewhere_missing_here (repo : Repo) (p : Pkg)
     (hwp : WfKeywords p) (hwr : ∀ q ∈ repo.pkgs, WfKeywords q) (k : Str) :
